@@ -45,10 +45,13 @@ VARIABLES
   sess,      \* "open" | "closed"
   ptype,     \* package type
   ro,        \* TRUE while the session has only opened the package and read from it
+  msync,     \* TRUE when nothing was written to the medium since the medium itself was last flushed
+             \* (a medium may defer writes until flush(): C15, C01).  It splits states so that a Flush
+             \* is explored - and replayed with its real history - after unflushed writes too.
   hist       \* bookkeeping only (hidden by VIEW): [path, last]
 
-vars == <<schemas, tstream, pool, cp, summary, dirty, dpool, dsum, ustreams, sess, ptype, ro, hist>>
-view == <<schemas, tstream, pool, cp, summary, dirty, dpool, dsum, ustreams, sess, ptype, ro>>
+vars == <<schemas, tstream, pool, cp, summary, dirty, dpool, dsum, ustreams, sess, ptype, ro, msync, hist>>
+view == <<schemas, tstream, pool, cp, summary, dirty, dpool, dsum, ustreams, sess, ptype, ro, msync>>
 
 True == Lit(IntV(1))       \* the condition of a statement without WHERE
 
@@ -181,14 +184,14 @@ DiskSame == UNCHANGED <<dpool, dsum>>
 Rest == UNCHANGED <<cp, summary, ustreams, sess, ptype>> /\ ro' = FALSE
 
 Rejected(op, args) ==      \* a refused call changes nothing (C04); the finisher bit is not observable
-  /\ UNCHANGED <<schemas, tstream, pool>> /\ DiskSame /\ Rest
+  /\ UNCHANGED <<schemas, tstream, pool, msync>> /\ DiskSame /\ Rest
   /\ dirty' = Touch
   /\ Log(op, args, "Err")
 
 Applied(op, args, st) ==   \* a table operation that produced the local state st
   /\ tstream' = st.ts /\ pool' = st.pool
   /\ dirty' = [dirty EXCEPT !.fin = TRUE, !.pool = @ \/ st.pool # pool]
-  /\ DiskSame /\ Rest
+  /\ DiskSame /\ Rest /\ msync' = FALSE           \* statements write the table stream straight through
   /\ Log(op, args, "Ok")
 
 -----------------------------------------------------------------------------
@@ -203,7 +206,7 @@ CreateTable(t, cols) ==
              IN IF IsErr(b) THEN UNCHANGED schemas /\ Rejected("CreateTable", [table |-> t, cols |-> cols])
                 ELSE /\ schemas' = [x \in DOMAIN schemas \cup {t} |-> IF x = t THEN cols ELSE schemas[x]]
                      /\ tstream' = b.ok.ts /\ pool' = b.ok.pool
-                     /\ dirty' = [dirty EXCEPT !.fin = TRUE, !.pool = TRUE] /\ DiskSame /\ Rest
+                     /\ dirty' = [dirty EXCEPT !.fin = TRUE, !.pool = TRUE] /\ DiskSame /\ Rest /\ msync' = FALSE
                      /\ Log("CreateTable", [table |-> t, cols |-> cols], "Err")
         ELSE IF IsErr(r) THEN UNCHANGED schemas /\ Rejected("CreateTable", [table |-> t, cols |-> cols])
         ELSE /\ schemas' = [x \in DOMAIN schemas \cup {t} |-> IF x = t THEN cols ELSE schemas[x]]
@@ -237,48 +240,51 @@ Delete(t, cond) ==
 SetCodepage(c) ==
   /\ Open
   /\ cp' = c /\ dirty' = [dirty EXCEPT !.fin = TRUE, !.pool = TRUE]
-  /\ UNCHANGED <<schemas, tstream, pool, summary, ustreams, sess, ptype>> /\ DiskSame /\ ro' = FALSE
+  /\ UNCHANGED <<schemas, tstream, pool, summary, ustreams, sess, ptype, msync>> /\ DiskSame /\ ro' = FALSE
   /\ Log("SetCodepage", [cp |-> c], "Ok")
 
 SetSummary(f, v) ==
   /\ Open
   /\ summary' = [summary EXCEPT ![f] = v]
   /\ dirty' = [dirty EXCEPT !.fin = TRUE, !.sum = TRUE]
-  /\ UNCHANGED <<schemas, tstream, pool, cp, ustreams, sess, ptype>> /\ DiskSame /\ ro' = FALSE
+  /\ UNCHANGED <<schemas, tstream, pool, cp, ustreams, sess, ptype, msync>> /\ DiskSame /\ ro' = FALSE
   /\ Log("SetSummary", [field |-> f, value |-> v], "Ok")
 
 WriteStream(n, c) ==      \* refused names change nothing (C04, C11)
   /\ Open
   /\ IF StreamNameOK(n)
      THEN /\ ustreams' = [x \in DOMAIN ustreams \cup {n} |-> IF x = n THEN c ELSE ustreams[x]]
+          /\ msync' = TRUE                     \* the stream writer is flushed, which flushes the container and the medium
           /\ Log("WriteStream", [name |-> n, data |-> c], "Ok")
-     ELSE /\ UNCHANGED ustreams /\ Log("WriteStream", [name |-> n, data |-> c], "Err")
+     ELSE /\ UNCHANGED <<ustreams, msync>> /\ Log("WriteStream", [name |-> n, data |-> c], "Err")
   /\ UNCHANGED <<schemas, tstream, pool, cp, summary, dirty, sess, ptype>> /\ DiskSame /\ ro' = FALSE
 
 RemoveStream(n) ==
   /\ Open
   /\ IF StreamNameOK(n) /\ n \in DOMAIN ustreams
      THEN /\ ustreams' = [x \in DOMAIN ustreams \ {n} |-> ustreams[x]]
+          /\ msync' = FALSE                    \* the directory is rewritten, nothing is flushed
           /\ Log("RemoveStream", [name |-> n], "Ok")
-     ELSE /\ UNCHANGED ustreams /\ Log("RemoveStream", [name |-> n], "Err")
+     ELSE /\ UNCHANGED <<ustreams, msync>> /\ Log("RemoveStream", [name |-> n], "Err")
   /\ UNCHANGED <<schemas, tstream, pool, cp, summary, dirty, sess, ptype>> /\ DiskSame /\ ro' = FALSE
 
 ReadStream(n) ==          \* Ok exactly for live, acceptable names; never for the special streams
   /\ Open
   /\ Log("ReadStream", [name |-> n], IF StreamNameOK(n) /\ n \in DOMAIN ustreams THEN "Ok" ELSE "Err")
-  /\ UNCHANGED <<schemas, tstream, pool, cp, summary, dirty, ustreams, sess, ptype, ro>> /\ DiskSame
+  /\ UNCHANGED <<schemas, tstream, pool, cp, summary, dirty, ustreams, sess, ptype, ro, msync>> /\ DiskSame
 
 RemoveSignature ==        \* removes only the signature
   /\ Open
   /\ ustreams' = [x \in DOMAIN ustreams \ {SIG} |-> ustreams[x]]
   /\ UNCHANGED <<schemas, tstream, pool, cp, summary, dirty, sess, ptype>> /\ DiskSame /\ ro' = FALSE
+  /\ msync' = (msync /\ SIG \notin DOMAIN ustreams)
   /\ Log("RemoveSignature", [x |-> 0], "Ok")
 
 \* a signing tool adds the signature stream to the closed file (outside the library)
 AddSignature ==
   /\ sess = "closed" /\ SIG \notin DOMAIN ustreams
   /\ ustreams' = [x \in DOMAIN ustreams \cup {SIG} |-> IF x = SIG THEN "sig" ELSE ustreams[x]]
-  /\ UNCHANGED <<schemas, tstream, pool, cp, summary, dirty, sess, ptype, ro>> /\ DiskSame
+  /\ UNCHANGED <<schemas, tstream, pool, cp, summary, dirty, sess, ptype, ro, msync>> /\ DiskSame
   /\ Log("AddSignature", [x |-> 0], "Ok")
 
 \* The finisher: writes the summary stream and the pool streams if modified.
@@ -290,6 +296,7 @@ Finish ==
 Close(op, s2) ==
   /\ Open /\ Finish /\ sess' = s2
   /\ UNCHANGED <<schemas, tstream, pool, cp, summary, ustreams, ptype, ro>>
+  /\ msync' = TRUE                               \* a successful flush flushes the medium (C15); a closed medium is handed back
   /\ Log(op, [x |-> 0], "Ok")
 Flush     == Close("Flush", "open")
 IntoInner == Close("IntoInner", "closed")
@@ -302,7 +309,7 @@ Load(op) ==
   /\ schemas' = DecodeSchemas(tstream, dpool.e)
   /\ pool' = NormPool(dpool.e) /\ cp' = dpool.cp /\ summary' = dsum
   /\ dirty' = [fin |-> FALSE, sum |-> FALSE, pool |-> FALSE]
-  /\ sess' = "open" /\ ro' = TRUE
+  /\ sess' = "open" /\ ro' = TRUE /\ msync' = TRUE
   /\ UNCHANGED <<tstream, ustreams, ptype>> /\ DiskSame
   /\ Log(op, [x |-> 0], "Ok")
 Reopen == sess = "closed" /\ Load("Reopen")
